@@ -545,6 +545,7 @@ func runC16Race(c *Case, out func(string)) {
 		return
 	}
 	defer n.stop()
+	out("X race")
 	iters := 300
 	entryType := uint8(wal.OpTypeMerge)
 	for _, l := range c.Lines {
